@@ -349,9 +349,13 @@ class Torrent():
         include_globs = tuple(str(g) for g in self._include['globs'])
         include_regexs = tuple(re.compile(r) for r in self._include['regexs'])
         include = tuple(itertools.chain(include_globs, include_regexs))
+        # Exclude empty files here: filter_files() would look for the paths
+        # relative to the torrent's parent directory in the current working
+        # directory
+        files = tuple(f for f in files if not (f.size <= 0 and os.path.exists(f)))
         files = utils.filter_files(files, getter=relpath_with_parent,
                                    exclude=exclude, include=include,
-                                   hidden=False, empty=False)
+                                   hidden=False, empty=True)
 
         info = self.metainfo['info']
         if not files or all(f.size <= 0 for f in files):
